@@ -1,4 +1,7 @@
 import ShuttleProofs.Lemmas.Storage
+import ShuttleProofs.Lemmas.ThreadLang
+import ShuttleProofs.Lemmas.TlsRefine
+import ShuttleProofs.Lemmas.KernelExamples
 /-
   C07 — threads and thread-locals.  Part 1: the storage map behind `thread_local!`
   (shuttle-engine/src/runtime/storage.rs, `LocalKey` in thread_support.rs), over the transcription
@@ -170,5 +173,319 @@ example :
     let m : StorageMap Nat := { locals := [(⟨0, 0⟩, some 10), (⟨1, 0⟩, some 20)], order := [⟨0, 0⟩, ⟨1, 0⟩] }
     Storage.measure [⟨0, 0⟩, ⟨1, 0⟩, ⟨2, 0⟩, ⟨3, 0⟩] m = 4 ∧
     (drain dtor 5 m []).dropped = [10, 20, 30, 40] ∧ (drain dtor 5 m []).completed = true := by decide
+
+/-! ## Part 2 — threads over the kernel model
+
+Vocabulary: `ShuttleProofs/Lemmas/ThreadFine.lean` (`FineStep`/`FineTrace`: the relational semantics of
+`runSegment` that remembers which task a request updates), `ThreadInv.lean` (`HardBlocked`, `isUnblockOf`,
+`iter_*`, `reach_*`), `ThreadLang.lean` (`exitSwitch`, `joinTail`, `scopeExit`, shapes of `threadFn` /
+`IR.scopedBody` / `scopeClose`).
+
+Not modelled, hence not covered: the *value* a closure returns and `JoinHandle::join` hands back (the model's
+bodies are `Prog U Unit`; in Rust the value travels through `result: Arc<Mutex<Option<Result<T>>>>`, written by
+`thread_fn` after the destructor loop and before `take_waiter`, and taken by `join` with
+`expect("target should have finished")`), and thread *names* (`Task.name`, fixed at spawn, not in the model's
+`Task`).  `ThreadId` is the task id, which is modelled.
+-/
+
+section threads
+open ShuttleProofs.Kernel ShuttleProofs.Thread
+
+variable {P : Program} {σ : Type}
+
+/-- **thread_fn_order.**  `thread_fn` is, in this order: the closure, the optional pre-exit switch, the
+thread-local destructor loop, and the `take_waiter`/`unblock` pair.  The loop falls through to that pair only
+from a round that has just read an *empty* destruction order (otherwise it pops the oldest key, leaves a
+tombstone, runs the destructor and goes round again), and the pair unblocks exactly the registered joiner.
+(The model's loop also carries a round bound `ir.objs.length + 1`; by
+`storage_pop_loop_terminates_with_late_inits` the number of rounds is at most the number of thread-local keys,
+which are among the `ir.objs.length` objects.) -/
+theorem thread_fn_order (ir : IR) (k : Nat) (f : ShuttleModel.P Unit) (sbe : Bool) :
+    threadFn ir k f sbe =
+      Prog.bind f (fun _ => Prog.bind (exitSwitch sbe) (fun _ =>
+        Prog.bind (tlsPopLoop ir k (ir.objs.length + 1)) (fun _ => joinTail))) ∧
+    (∀ n, tlsPopLoop ir k (n + 1) =
+      Prog.bind (K.getL (Heap.localL k)) (fun l =>
+        match l.tlsOrder with
+        | [] => Prog.pure ()
+        | key :: rest =>
+          Prog.bind (K.setL (Heap.localL k) { l with
+              tlsOrder := rest,
+              tlsSlots := l.tlsSlots.map (fun p => if p.1 == key then (key, false) else p) })
+            (fun _ => Prog.bind (tlsDtor ir k key) (fun _ => tlsPopLoop ir k n)))) ∧
+    (∀ (S : Scheduler σ) (me fuel : Nat) (st : ExecState ir.program σ) (tk : Task),
+      st.k.tasks[me]? = some tk →
+      (tk.waiter = none →
+        runSegment S me (fuel + 1) st joinTail =
+          runSegment S me fuel { st with k := st.k.setTask me { tk with waiter := none } } (.pure ())) ∧
+      (∀ j, tk.waiter = some j →
+        runSegment S me (fuel + 2) st joinTail =
+          match (st.k.setTask me { tk with waiter := none }).modTask j (·.unblock) with
+          | .ok k' => runSegment S me fuel { st with k := k' } (.pure ())
+          | .error e => .panicked e { st with k := st.k.setTask me { tk with waiter := none } })) :=
+  ⟨threadFn_eq ir k f sbe, tlsPopLoop_succ ir k, fun S me fuel st _ h => runSegment_joinTail S me fuel st h⟩
+
+example : ∃ ir : IR, ir.objs.length = 1 ∧ (ir.tasks.length = 2) :=
+  ⟨{ objs := [{ name := "t", kind := "tls", args := ["log"] }], tasks := [{}, {}] }, rfl, rfl⟩
+
+/-- **join_returns_only_when_finished.**
+(a) `Task::set_waiter` answers "do not block" only for a `Finished` target, and otherwise records the joiner
+    without touching the target's state;
+(b) a task `j` blocked by `block(false)` (what `join` does after `set_waiter` returned `true`) and not parked
+    is not offered to the scheduler, and is still blocked after any loop iteration whose segment issues no
+    `unblock(j)` request before its next scheduling point — no other request (`wake`, `unpark`, `block`, …, of
+    any task) and no scheduler decision resumes it;
+(c) the tail of the target's `thread_fn` is such a request, for exactly the registered joiner
+    (`thread_fn_order`), and it comes after the destructor loop.
+What is **not** claimed (and false, F10): that no *other* code issues `unblock(j)` while `j` waits in `join` —
+the last scoped thread of a `thread::scope` does, see `scope_unblock_is_unconditional_witness`. -/
+theorem join_returns_only_when_finished :
+    (∀ (tk tk' : Task) (w : Nat) (b : Bool), tk.setWaiter w = .ok (b, tk') →
+      (b = false → tk.finished = true ∧ tk' = tk) ∧
+      (b = true → tk.finished = false ∧ tk'.waiter = some w ∧ tk'.state = tk.state)) ∧
+    (∀ (S : Scheduler σ) (segFuel : Nat) (st b : ExecState P σ) (j : Nat) (tk : Task),
+      st.k.next = .none → st.conts.length = st.k.tasks.length → loopStep S segFuel st = .inr b →
+      st.k.tasks[j]? = some tk → HardBlocked tk →
+      j ∉ st.k.offered ∧
+      ((∀ t p, t ∈ st.k.offered → st.conts[t]? = some p →
+          UntilSwitch (P := P) (isUnblockOf j) p ∧ UntilSwitch (P := P) (isUnblockOf j) (P.unwind t)) →
+        ∃ tk', b.k.tasks[j]? = some tk' ∧ HardBlocked tk')) := by
+  refine ⟨?_, ?_⟩
+  · intro tk tk' w b h
+    unfold Task.setWaiter at h
+    split at h
+    · cases h
+    · split at h
+      · rename_i hf
+        cases h
+        exact ⟨fun _ => ⟨hf, rfl⟩, fun hb => (by cases hb)⟩
+      · rename_i hf
+        cases h
+        exact ⟨fun hb => (by cases hb), fun _ => ⟨by simpa using hf, rfl, rfl⟩⟩
+  · intro S segFuel st b j tk hn hc hs hj hb
+    exact ⟨not_offered_of_hardBlocked hj hb, fun hprog => iter_blocked hn hc hs hj hb hprog⟩
+
+/-- non-vacuity of (b): in `exDeadlock` main blocks itself with `block(false)`; at the second loop head it is
+`HardBlocked` and not offered -/
+example : ∃ tk, (runLoop firstSched 20 1 (initState exDeadlock .none 0 ())).st.k.tasks[0]? = some tk ∧
+    tk.state = .blocked false ∧ tk.blockedInPark = false := ⟨_, rfl, by decide, by decide⟩
+
+/-- **task_ids_unique.**  A task id is the index of its entry in the append-only task table:
+`spawn` (all of `spawn_thread` / `spawn_future` / `spawn_main_thread`) returns the current length of the table,
+a spawn by an existing task lengthens the table by exactly one, no request and no loop iteration shortens it —
+so an id is never handed out twice in an execution —, and the id a thread reads for itself (`ExecutionState::me()`,
+hence `thread::current().id()`) is the index under which the run loop resumed it. -/
+theorem task_ids_unique :
+    (∀ (k : Kernel) (parent : Option Nat), (k.spawnTask parent).1 = k.tasks.length) ∧
+    (∀ (k : Kernel), (k.spawnTask none).2.tasks.length = k.tasks.length + 1) ∧
+    (∀ (k : Kernel) (p : Nat), p < k.tasks.length → (k.spawnTask (some p)).2.tasks.length = k.tasks.length + 1) ∧
+    (∀ (S : Scheduler σ) (me fuel : Nat) (st : ExecState P σ) (fut : Bool) (body : Nat) (kont : Nat → Prog P.U Unit),
+      runSegment S me (fuel + 1) st (.op (.spawn fut body) kont) =
+        runSegment S me fuel { st with k := (st.k.spawnTask (some me)).2, conts := st.conts ++ [P.bodies body] }
+          (kont st.k.tasks.length)) ∧
+    (∀ (S : Scheduler σ) (me fuel : Nat) (st : ExecState P σ) (p : Prog P.U Unit),
+      st.k.tasks.length ≤ (runSegment S me fuel st p).st.k.tasks.length) ∧
+    (∀ (S : Scheduler σ) (segFuel : Nat) (ms : MaxSteps) (a b : ExecState P σ), LoopInv ms a →
+      Reach S segFuel a b → a.k.tasks.length ≤ b.k.tasks.length) ∧
+    (∀ (S : Scheduler σ) (me fuel : Nat) (st : ExecState P σ) (kont : Nat → Prog P.U Unit),
+      runSegment S me (fuel + 1) st (.op .me kont) = runSegment S me fuel st (kont me)) := by
+  refine ⟨spawnTask_fst, ?_, ?_, ?_, ?_, ?_, ?_⟩
+  · intro k; simp [Kernel.spawnTask]
+  · intro k p hp
+    obtain ⟨ts, heq, _, hlt⟩ := spawnTask_some_spec k p
+    rw [heq]; exact hlt hp
+  · intro S me fuel st fut body kont
+    rw [runSegment]
+    have h1 := spawnTask_fst st.k (some me)
+    rcases hsp : st.k.spawnTask (some me) with ⟨tid, k'⟩
+    rw [hsp] at h1
+    simp only at h1
+    subst h1
+    rfl
+  · intro S me fuel st p
+    exact (runSegment_trace S me fuel st p).frame.tasksLen
+  · intro S segFuel ms a b hi h
+    exact reach_tasks_length hi h
+  · intro S me fuel st kont
+    rw [runSegment]
+
+example : ((({} : Kernel).spawnTask none).2.spawnTask (some 0)).1 = 1 := by decide
+
+/-- **closure_runs_once.**
+(a) the program of body `b` enters the continuation table only through a `spawn … b` request, as a new last
+    entry whose index is the id that request returns (the table has one entry per task);
+(b) a loop iteration resumes exactly one task, one the scheduler was offered — hence not `Finished` — from the
+    continuation stored for it, and leaves every other task's continuation untouched;
+(c) when that task's closure returns, the task becomes `Finished`;
+(d) a `Finished` task stays `Finished`, is never offered again and its continuation never changes, at every
+    loop head reachable afterwards: its closure is not run a second time. -/
+theorem closure_runs_once :
+    (∀ (S : Scheduler σ) (me fuel : Nat) (st : ExecState P σ) (fut : Bool) (body : Nat) (kont : Nat → Prog P.U Unit),
+      st.conts.length = st.k.tasks.length →
+      ∃ st', runSegment S me (fuel + 1) st (.op (.spawn fut body) kont) =
+          runSegment S me fuel st' (kont st.k.tasks.length) ∧
+        st'.conts = st.conts ++ [P.bodies body] ∧ st'.conts[st.k.tasks.length]? = some (P.bodies body)) ∧
+    (∀ (S : Scheduler σ) (segFuel : Nat) (st b : ExecState P σ),
+      st.k.next = .none → st.conts.length = st.k.tasks.length → loopStep S segFuel st = .inr b →
+      ∃ t s' p, t ∈ st.k.offered ∧ st.conts[t]? = some p ∧
+        (∃ tk, st.k.tasks[t]? = some tk ∧ tk.finished = false) ∧
+        (∀ i, i ≠ t → i < st.conts.length → b.conts[i]? = st.conts[i]?) ∧
+        (runSegment S t segFuel (segStart st t s') p = .atSwitch b ∨
+          ∃ st' tk', runSegment S t segFuel (segStart st t s') p = .returned st' ∧
+            b.k.tasks[t]? = some tk' ∧ tk'.finished = true ∧ b.conts[t]? = some (.pure ()))) ∧
+    (∀ (S : Scheduler σ) (segFuel : Nat) (ms : MaxSteps) (a b : ExecState P σ) (j : Nat) (tk : Task),
+      LoopInv ms a → Reach S segFuel a b → a.k.tasks[j]? = some tk → tk.finished = true →
+      (∃ tk', b.k.tasks[j]? = some tk' ∧ tk'.finished = true) ∧ j ∉ b.k.offered ∧
+        b.conts[j]? = a.conts[j]?) := by
+  refine ⟨?_, ?_, ?_⟩
+  · intro S me fuel st fut body kont hc
+    refine ⟨{ st with k := (st.k.spawnTask (some me)).2, conts := st.conts ++ [P.bodies body] }, ?_, rfl, ?_⟩
+    · exact (task_ids_unique (P := P) (σ := σ)).2.2.2.1 S me fuel st fut body kont
+    · simp [← hc]
+  · intro S segFuel st b hn hc hs
+    obtain ⟨t, s', p, hoff, hp, hend⟩ := iter_fine hn hc hs
+    have htr := runSegment_fineTrace S t segFuel (segStart st t s') p
+    have htl : t < st.conts.length := (List.getElem?_eq_some_iff.1 hp).1
+    refine ⟨t, s', p, hoff, hp, ?_, ?_, ?_⟩
+    · obtain ⟨tk, h1, h2⟩ := mem_live.mp (offered_subset_live hoff)
+      exact ⟨tk, h1, h2⟩
+    · intro i hne hi
+      have hco := (htr.conts_other hne (by rw [segStart_conts]; exact hi)).1
+      rcases hend with he | ⟨st', tk0, tk0', he, _, _, rfl⟩
+      · rw [he] at hco; exact hco
+      · rw [he] at hco; exact hco
+    · rcases hend with he | ⟨st', tk0, tk0', he, h1, h2, hb⟩
+      · exact .inl he
+      · refine .inr ⟨st', tk0', he, ?_⟩
+        obtain ⟨h3, h4⟩ := iter_returned_finished he h1 h2 hb
+        refine ⟨h3, h4, ?_⟩
+        subst hb
+        -- the segment's final state stored `.pure ()` for `t`
+        obtain ⟨_, c, hc1, hc2⟩ := returned_conts htr he
+        show st'.conts[t]? = some (.pure ())
+        rw [hc2]
+        exact List.getElem?_set_self (by simp only [segStart_conts] at hc1; omega)
+  · intro S segFuel ms a b j tk hi hr hj hf
+    obtain ⟨⟨tk', h1, h2⟩, h3⟩ := reach_finished hi hr hj hf
+    exact ⟨⟨tk', h1, h2⟩, not_offered_of_finished h1 h2, h3⟩
+
+/-- non-vacuity: `exP` runs to completion with both closures returning -/
+example : (execute exP firstSched .none 0 () 20 20).outcome = .ok ∧
+    (execute exP firstSched .none 0 () 20 20).st.k.tasks.length = 2 ∧
+    (execute exP firstSched .none 0 () 20 20).st.k.tasks.all (·.finished) = true := by decide
+
+end threads
+
+section tls_link
+open ShuttleProofs.TlsRefine
+
+/-- **The harness model's thread-locals are a `StorageMap`.**  The TLS fields of a task's `Local` in Lang.lean
+(`tlsSlots`, `tlsOrder`) denote a `StorageMap Unit` (`toStorage`); `tlsTryWith` is "read the `Local`, apply
+`tlsAccess`, write it back when a slot was created", and `tlsAccess` is `LocalKey::try_with` on that map:
+`"seen"` ⇔ the slot is alive, `"destroyed"` ⇔ it is a tombstone (nothing changes: no resurrection), `"init"` ⇔
+it was never initialised and is now created at the end of the destruction order; one round of `tlsPopLoop`
+(`tlsPopStep`) is `StorageMap::pop`.  So the storage theorems above speak about what `tls_with` and the
+destructor loop of `threadFn` do in the executable model; each task (`Local` is per body, the main one
+included) has its own map. -/
+theorem tls_model_refines_storage (k oi : Nat) (l : Local) :
+    (tlsTryWith k oi =
+      Prog.bind (K.getL (Heap.localL k)) (fun l =>
+        match l.tlsSlots.find? (·.1 == oi) with
+        | some (_, true) => Prog.pure (tlsAccess l oi).1
+        | some (_, false) => Prog.pure (tlsAccess l oi).1
+        | none => Prog.bind (K.setL (Heap.localL k) (tlsAccess l oi).2) (fun _ => Prog.pure (tlsAccess l oi).1))) ∧
+    (((tlsAccess l oi).1 = "seen" ∧ (toStorage l).get (key oi) = some (.ok ()) ∧ (tlsAccess l oi).2 = l) ∨
+     ((tlsAccess l oi).1 = "destroyed" ∧ (toStorage l).get (key oi) = some (.error .alreadyDestructed) ∧
+        (tlsAccess l oi).2 = l) ∨
+     ((tlsAccess l oi).1 = "init" ∧ (toStorage l).get (key oi) = none ∧
+        toStorage (tlsAccess l oi).2 = (toStorage l).pushed (key oi) ())) ∧
+    ((l.tlsOrder = [] ∧ tlsPopStep l = none ∧ (toStorage l).pop = .empty) ∨
+     (∃ k' rest l', l.tlsOrder = k' :: rest ∧ tlsPopStep l = some (k', l') ∧
+        toStorage l' = { locals := tombstone (toStorage l).locals (key k'), order := (toStorage l).order.tail })) :=
+  ⟨tlsTryWith_eq k oi, tlsAccess_refines l oi, tlsPopStep_refines l⟩
+
+example : (tlsAccess { tlsSlots := [(3, false), (5, true)], tlsOrder := [5] } 3).1 = "destroyed" ∧
+    (tlsAccess { tlsSlots := [(3, false), (5, true)], tlsOrder := [5] } 5).1 = "seen" ∧
+    (tlsAccess { tlsSlots := [(3, false), (5, true)], tlsOrder := [5] } 7).2.tlsOrder = [5, 7] := by decide
+
+end tls_link
+
+section scope
+open ShuttleProofs.Kernel ShuttleProofs.Thread
+
+variable {σ : Type}
+
+/-- **scope_waits_for_all** — as far as it is true.
+(a) A scoped thread is `thread_fn(wrapper, switch_before_exit = false)` where the wrapper runs the thread's
+    closure, its own pre-exit switch and then `scopeExit`; the thread's thread-local destructors and the
+    wake-up of its joiner come *after* `scopeExit` (in `thread_fn`).  So what `scope` waits for is the return of
+    every scoped *closure* — not the end of the scoped threads: their TLS destructors may still run, and the
+    tasks are not yet `Finished`, when `scope` returns (the same holds for the Rust code, thread.rs:88-105).
+(b) At the end of the scope the main task goes on at once when the counter is 0, and otherwise blocks itself
+    with `block(false)` and switches — by `join_returns_only_when_finished` (b) it then stays blocked until some
+    segment issues `unblock(main)`.
+(c) `scopeExit` decrements the counter and, unless it read 1 (last running thread), changes no task. -/
+theorem scope_waits_for_all (ir : IR) :
+    (∀ k sid, ir.scopedBody k sid =
+      threadFn ir k (do
+        runOps ir k ((ir.tasks[k]?).getD {}).ops (2 * ((ir.tasks[k]?).getD {}).ops.length + 4) 0
+        let t ← K.exitTruncates
+        if t then K.switch else pure ()
+        scopeExit sid) false) ∧
+    (∀ (S : Scheduler σ) (me fuel : Nat) (st : ExecState ir.program σ) (sid : Nat)
+        (kont : Unit → ShuttleModel.P Unit),
+      (((st.u.scopes[sid]?).getD {}).running = 0 →
+        runSegment S me (fuel + 1) st (Prog.bind (scopeClose sid) kont) = runSegment S me fuel st (kont ())) ∧
+      (((st.u.scopes[sid]?).getD {}).running ≠ 0 →
+        runSegment S me (fuel + 3) st (Prog.bind (scopeClose sid) kont) =
+          match st.k.modTask me (·.block false) with
+          | .ok k' => .atSwitch { st with k := k', conts := st.conts.set me (kont ()) }
+          | .error e => .panicked e st)) ∧
+    (∀ (S : Scheduler σ) (me fuel : Nat) (st : ExecState ir.program σ) (sid : Nat)
+        (kont : Unit → ShuttleModel.P Unit),
+      ((st.u.scopes[sid]?).getD {}).running ≠ 1 →
+        runSegment S me (fuel + 2) st (Prog.bind (scopeExit sid) kont) =
+          runSegment S me fuel { st with u := afterScopeExit st.u sid } (kont ())) :=
+  ⟨scopedBody_eq ir,
+   fun S me fuel st sid kont =>
+     runSegment_scopeClose (i := ir.initHeap) (b := ir.bodiesA) (u := ir.unwind) S me fuel st sid kont,
+   fun S me fuel st sid kont =>
+     (runSegment_scopeExit (i := ir.initHeap) (b := ir.bodiesA) (u := ir.unwind) S me fuel st sid kont).1⟩
+
+example : (afterScopeExit { scopes := [{ running := 2, mainTask := 0 }] } 0).scopes.map (·.running) = [1] := by
+  decide
+
+/-- **scope_unblock_is_unconditional_witness (known defect F10, not hidden).**
+(a) In the model as in thread.rs:99-101, the scoped thread that reads the counter at 1 applies `unblock()` to
+    the scope's main task *whatever that task is blocked on*: for every kernel state in which the main task
+    `m` is not `Finished` — in particular `HardBlocked` in a `recv`, `Condvar::wait` or `join` it entered inside
+    the scope closure, with the counter having dropped to 1 while the closure is still running — `scopeExit`
+    continues with `m` runnable.  There is no premise saying that `m` waits at the end of the scope.
+(b) A concrete execution: in `exF10` the main task blocks inside the scope closure on something that never
+    happens; a correct runtime reports the deadlock (that is what the same program without the scoped thread's
+    `unblock` gives, `exDeadlock`), but the execution ends `ok` with main having run past its blocking point.
+    The full-stack witness is /verif/corpus/C07/f10_scope_unblock_blocked_sender.vp. -/
+theorem scope_unblock_is_unconditional_witness (ir : IR) :
+    (∀ (S : Scheduler σ) (me fuel : Nat) (st : ExecState ir.program σ) (sid : Nat)
+        (kont : Unit → ShuttleModel.P Unit) (tm : Task),
+      ((st.u.scopes[sid]?).getD {}).running = 1 →
+      st.k.tasks[((st.u.scopes[sid]?).getD {}).mainTask]? = some tm → tm.finished = false →
+      runSegment S me (fuel + 3) st (Prog.bind (scopeExit sid) kont) =
+        runSegment S me fuel
+          { st with u := afterScopeExit st.u sid,
+                    k := st.k.setTask ((st.u.scopes[sid]?).getD {}).mainTask
+                      { tm with state := .runnable, blockedInPark := false } } (kont ())) ∧
+    ((execute exF10 firstSched .none 0 () 20 20).outcome = .ok ∧
+     Ev.obs "main resumed although nothing it waited for happened" ∈
+       (execute exF10 firstSched .none 0 () 20 20).st.log.toList ∧
+     (execute exDeadlock firstSched .none 0 () 20 20).outcome = .deadlock [(0, false, false)]) := by
+  refine ⟨?_, by decide⟩
+  intro S me fuel st sid kont tm hr hm hf
+  have h := (runSegment_scopeExit (i := ir.initHeap) (b := ir.bodiesA) (u := ir.unwind) S me fuel st sid kont).2 hr
+  refine Eq.trans h ?_
+  simp [Kernel.modTask, Kernel.getTask?, hm, Task.unblock, hf]
+  rfl
+
+end scope
 
 end ShuttleProofs.C07
